@@ -7,7 +7,7 @@ from vf.oracles import reader
 from vf.props.common import SCH
 from vf.symx import SInt, smax
 
-ALL_OPS = ["append", "append2", "delete", "replace", "expire", "delsnap", "gc", "failed_commit", "set_retention", "open_txn"]
+ALL_OPS = ["append", "append2", "delete", "replace", "expire", "delsnap", "gc", "failed_commit", "set_retention", "open_txn", "contended_commit"]
 
 
 class Snap:
@@ -217,6 +217,70 @@ class History:
             new.properties = dict(new.properties)
             new.properties["write.metadata.previous-versions-max"] = n
             mm.commit(base, new)
+        elif kind == "contended_commit":
+            # a LIVE transaction whose data file is already older than the grace period commits, loses the race once to a rival
+            # (injected between its base read and its validation) and retries; a collection with the default grace period runs
+            # during its retry back-off.  Nothing the transaction registered may be collected.
+            import sys as _sys
+            to = e.table()
+            tx = to.new_transaction()
+            tx.begin()
+            row = self.next_row
+            self.next_row += 1
+            tx.append_data([{"a": row}])
+            w.clock.advance(2 * 3600_000)
+            rival = e.table()
+            rrow = self.next_row
+            self.next_row += 1
+            real_commit = to.metadata_manager.commit
+            stc = {"n": 0}
+
+            def commit_with_rival(base, new):
+                stc["n"] += 1
+                if stc["n"] == 1:
+                    rival.append_records([{"a": rrow}])
+                return real_commit(base, new)
+
+            to.metadata_manager.commit = commit_with_rival
+            tshim = _sys.modules["time"]
+            real_sleep = tshim.sleep
+            sts = {"done": False}
+
+            def sleep_with_gc(x):
+                if not sts["done"]:
+                    sts["done"] = True
+                    t.garbage_collect()  # default grace period (1 h)
+                return real_sleep(x)
+
+            tshim.sleep = sleep_with_gc
+            try:
+                tx.commit()
+            except Exception as ex:  # noqa
+                sp.require(False, f"contended_commit: the live transaction's commit failed after a collection ran during its retry back-off: "
+                           f"{type(ex).__name__}: {str(ex)[:100]} ({self.trail})", {"sig": "gc:live-transaction-files-collected"})
+            finally:
+                tshim.sleep = real_sleep
+                to.metadata_manager.commit = real_commit
+            sp.require(sts["done"] and stc["n"] >= 2, "contended_commit: the scenario did not retry", {"sig": "hist:contended:no-retry"})
+            # two commits landed: the rival's, then the transaction's
+            f, (name, md) = self.md()
+            new = [s_ for s_ in md["snapshots"] if s_["snapshot_id"] not in self.all]
+            sp.require(len(new) == 2, f"contended_commit: expected two new snapshots, found {len(new)}", {"sig": "hist:contended:new-snapshots"})
+            for s_ in new:
+                try:
+                    pairs = reader.snapshot_files(f, s_)
+                    rows = tuple(sorted(reader.snapshot_rows(f, s_, "a")))
+                except reader.Unreadable as ex:
+                    sp.require(False, f"contended_commit: a file of the committed snapshot was collected: {ex} ({self.trail})",
+                               {"sig": "gc:live-transaction-files-collected"})
+                    return kind
+                snap = Snap(s_["snapshot_id"], rows, frozenset(p_ for p_, _ in pairs), frozenset(reader.snapshot_manifests(f, s_)),
+                            s_["manifest_list"].lstrip("/"), s_["timestamp_ms"], s_.get("sequence_number"), self.current)
+                self.all[snap.id] = snap
+                self.order.append(snap.id)
+                self.retained.append(snap.id)
+                self.current = snap.id
+            self.apply_retention_model()
         elif kind == "open_txn":
             to = e.table()
             tx = to.new_transaction()
